@@ -132,7 +132,7 @@ fn wellformed_k<K: Kind>(c: &FileCase, ctx: &mut Ctx) -> Result<(), Fail> {
         let (shp, _shx) = if route == 2 {
             // files on disk through ShapeWriter::from_path (BufWriter<File>)
             ctx.class("disk-route");
-            let p = scratch_dir().join("c02.shp");
+            let p = scratch_shp("c02", shapes.len() + c.mid_fins as usize);
             {
                 let mut w = shapefile::ShapeWriter::from_path(&p).map_err(|e| Fail::new("write-error", err_str(&e)))?;
                 if c.fin == Finish::WriteShapes {
@@ -246,8 +246,7 @@ fn index_k<K: Kind>(c: &FileCase, ctx: &mut Ctx) -> Result<(), Fail> {
     let n = shapes.len();
     let (shp, shx) = if c.disk {
         ctx.class("disk-route");
-        let dir = scratch_dir();
-        let p = dir.join("c04.shp");
+        let p = scratch_shp("c04", shapes.len() + c.mid_fins as usize);
         {
             let mut w = shapefile::ShapeWriter::from_path(&p).map_err(|e| Fail::new("write-error", err_str(&e)))?;
             for (i, s) in shapes.iter().enumerate() {
@@ -343,6 +342,18 @@ fn index_k<K: Kind>(c: &FileCase, ctx: &mut Ctx) -> Result<(), Fail> {
             Ok(s) => ensure!(view_shape(s) == seq[i], "index-vs-sequential", "shape {} differs with and without index", i),
             Err(e) => fail!("read-error", "iteration without index: {}", err_str(e)),
         }
+    }
+    // the Iterator adaptors (nth / skip / step_by / count / last) agree with the plain loop, with and without the index,
+    // and the size hint keeps counting what is still to come after items were skipped
+    let eq = |e: &Geom, g: &Geom| if e == g { Ok(()) } else { Err("differs from the plain iteration item".to_string()) };
+    adaptor_routes("index/shx", || open_mem(&shp, Some(&shx[..])), &seq, eq).map_err(|(k, m)| Fail::new(if k == "shape-differs" { "index-vs-sequential" } else { &k }, m))?;
+    adaptor_routes("index/noshx", || open_mem(&shp, None), &seq, eq).map_err(|(k, m)| Fail::new(if k == "shape-differs" { "index-vs-sequential" } else { &k }, m))?;
+    if n >= 3 {
+        let mut r = open(true)?;
+        let mut it = r.iter_shapes();
+        let _ = it.next();
+        let _ = it.nth(1);
+        ensure!(it.size_hint() == (n - 3, Some(n - 3)), "size-hint", "size_hint {:?} after next() and nth(1) with {} shapes still to come", it.size_hint(), n - 3);
     }
     let mut r3 = open(true)?;
     for i in (0..n).rev().chain(0..n) {
